@@ -205,6 +205,18 @@ def is_ascii_compatible_encoding(encoding, *, missing_ok=True):
     else:
         raise EncodingLookupError(encoding)
 
+def decode(data, encoding):
+    '''
+    like bytes.decode(), but report every failure as UnicodeDecodeError;
+    some codecs (idna, punycode) raise a bare UnicodeError for malformed input
+    '''
+    try:
+        return data.decode(encoding)
+    except UnicodeDecodeError:
+        raise
+    except UnicodeError as exc:
+        raise UnicodeDecodeError(encoding, bytes(data), 0, len(data), str(exc)) from exc
+
 def _codec_search_function(encoding):
     encoding = _unmangle_encoding.get(encoding, encoding)
     if _portable_encodings.get(encoding, False) is None:
